@@ -56,6 +56,9 @@ class C03(Prop):
             cfg["edif_props"] = r.random() < 0.6
             cfg["array_rate"] = r.choice([0.0, 0.3])
             cfg["orphan_instance"] = False
+            cfg["long_name_rate"] = r.choice([0.0, 0.0, 0.15])
+            if cfg["lsb"] >= 0 and r.random() < 0.3:
+                cfg["lsb"] = r.choice([9, 98, 999])   # bit indices with more digits than the width has
             if cfg["lsb"] < 0 and r.random() < 0.85:
                 cfg["lsb"] = 2  # negative base indices are an open finding: explore them in few runs only
         else:
